@@ -22,7 +22,7 @@ def reset_cross_budget():
 
 
 def budget_ms():
-    return 60000 if os.environ.get("VERIF_TIER", TIER) == "thorough" else 10000
+    return 60000 if os.environ.get("VERIF_TIER", TIER) == "thorough" else 20000
 
 
 class Verdict:
